@@ -955,6 +955,81 @@ static void c03Nudge(Rng &rng, CaseResult &r) {
   if (r.needSample()) r.sample = sampleJson(c0, "c03.nudge", pdesc, std::string(sn[stage]) + " nudgeAt=" + std::to_string(nudgeAt));
 }
 
+// The position setters stay available during a call. A Detailed callback that uses them on MOVABLE cells (also on multi-row cells,
+// which the detailed placer keeps but does not optimise) must not make the wirelength of the exposed states rise: the run with such a
+// callback is compared with a run of the same circuit under a passive callback, so that a rise already present there (judged by the
+// c05.* flow parts, recorded finding included) is not judged a second time here.
+static void c05Meddle(Rng &rng, CaseResult &r) {
+  std::string profile = rng.pick(std::vector<std::string>{"multirow", "general", "turned", "polarity", "obstruction"});
+  GenOpts o = makeProfile(rng, profile);
+  if (rng.chance(0.6)) o.multiRowProb = 0.5;
+  Circuit c0 = genCircuit(rng, o);
+  std::string pdesc;
+  ColoquinteParameters params = genParams(rng, true, &pdesc);
+  uint64_t meddleSeed = rng.next();
+  std::string desc = "callbacks from the second on write positions of movable cells, seed " + std::to_string(meddleSeed);
+  if (r.dumpOnly) { r.sample = sampleJson(c0, "c05.meddle", pdesc, desc); return; }
+  int H = c0.rows_[0].height();
+  std::vector<long long> hA, hB;
+  bool okA = false, okB = false;
+  Circuit a = c0, b = c0;
+  try {
+    PlacementCallback cb = [&](PlacementStep) { hA.push_back(a.hpwl()); };
+    a.placeDetailed(params, cb);
+    okA = true;
+    hA.push_back(a.hpwl());
+  } catch (const std::exception &) {}
+  Rng m(meddleSeed);
+  int writes = 0, tallWrites = 0, ncb = 0;
+  try {
+    PlacementCallback cb = [&](PlacementStep) {
+      ++ncb;
+      hB.push_back(b.hpwl());
+      if (ncb < 2 || !m.chance(0.7)) return;  // the first callback comes from the legalization stage: what it writes is the start
+      std::vector<int> x = b.cellX_, y = b.cellY_;
+      std::vector<CellOrientation> oo = b.cellOrientation_;
+      bool any = false;
+      for (int i = 0; i < b.nbCells(); ++i) {
+        if (b.cellIsFixed_[i]) continue;
+        bool tall = pH(b, i) != H;
+        if (!m.chance(tall ? 0.7 : 0.15)) continue;
+        x[i] += (int)m.range(-60, 60); y[i] += (int)m.range(-3, 3) * H;
+        any = true;
+        if (tall) ++tallWrites;
+      }
+      if (!any) return;
+      int how = (int)m.range(0, 2);
+      if (how == 0) { b.setCellX(x); b.setCellY(y); }
+      else if (how == 1) { PlacementSolution sol; for (int i = 0; i < b.nbCells(); ++i) sol.emplace_back(x[i], y[i], oo[i]); b.setSolution(sol); }
+      else { b.setCellY(y); b.setCellX(x); }
+      ++writes;
+    };
+    b.placeDetailed(params, cb);
+    okB = true;
+    hB.push_back(b.hpwl());
+  } catch (const std::exception &) {}
+  r.count(okB ? "meddled_runs_returned" : "meddled_runs_threw");
+  r.count("callback_writes", writes);
+  r.count("callback_writes_to_multirow_cells", tallWrites);
+  if (okA != okB) r.count("outcome_differs_from_the_passive_run");
+  if (okA && okB) {
+    if (hA != hB) r.count("exposed_wirelengths_differ_from_the_passive_run");
+    for (size_t i = 0; i + 1 < hB.size(); ++i) {
+      if (hB[i + 1] <= hB[i]) continue;
+      if (i + 1 < hA.size() && hA[i] == hB[i] && hA[i + 1] == hB[i + 1] && hA.size() == hB.size()) continue;  // same rise without the writes
+      r.fail("C05:hpwl-increase:after-a-callback-wrote-positions-of-movable-cells", "wirelength rose " + std::to_string(hB[i]) + " -> " + std::to_string(hB[i + 1]) + " between exposed states " + std::to_string(i + 1) + " and " +
+                                                                                        std::to_string(i + 2) + " of " + std::to_string(hB.size()) + "; " + std::to_string(writes) + " callback writes, " + std::to_string(tallWrites) + " to multi-row cells");
+      break;
+    }
+    if (hB.size() >= 2 && hB.back() > hB[0] && !(hA.size() >= 2 && hA.back() == hB.back() && hA[0] == hB[0]))
+      r.fail("C05:hpwl-increase:after-a-callback-wrote-positions-of-movable-cells", "final wirelength " + std::to_string(hB.back()) + " exceeds the legalized one " + std::to_string(hB[0]));
+  }
+  r.nontrivial = okB && writes > 0 && ncb > 2;
+  Features f = features(c0);
+  r.sig = "meddle:" + f.str() + ":w" + std::to_string(std::min(writes, 5)) + "t" + std::to_string(std::min(tallWrites, 3)) + "cb" + std::to_string(std::min(ncb, 9)) + (okB ? "r" : "t");
+  if (!r.viol.empty() || r.needSample()) r.sample = sampleJson(c0, "c05.meddle", pdesc, desc);
+}
+
 // Many cells: tens to hundreds of thousands, with the netlist shapes that stress depth and length rather than values:
 // chains listed in order (every net links cell i to i+1), shuffled chains, hubs, random small nets.
 static void c07ScaleCase(uint64_t idx, Rng &rng, CaseResult &r) {
@@ -1031,6 +1106,7 @@ int main(int argc, char **argv) {
     add("c03.flow." + prof, [prof](uint64_t, Rng &rng, CaseResult &r) { flowCase(rng, r, prof, O_C03); });
   add("c01.staged", [](uint64_t, Rng &rng, CaseResult &r) { c01Staged(rng, r); });
   add("c01.components", [](uint64_t, Rng &rng, CaseResult &r) { c01Components(rng, r); });
+  add("c05.meddle", [](uint64_t, Rng &rng, CaseResult &r) { c05Meddle(rng, r); }, 60);
   add("c03.global", [](uint64_t, Rng &rng, CaseResult &r) { c03Global(rng, r); });
   add("c03.nudge", [](uint64_t, Rng &rng, CaseResult &r) { c03Nudge(rng, r); }, 60);
   for (std::string prof : {"general", "rowhigh", "obstruction", "polarity", "dense", "crowded", "big20", "comb", "staggered"})
